@@ -66,6 +66,61 @@ def readbackOk (file : Bytes) : List (Option (List Blk)) → List Nat → Bool
   | some b :: ps, loc :: ls => (slice file loc (blkBytes b).length == blkBytes b) && readbackOk file ps ls
   | _, _ => false
 
+/-! ### every location a caller keeps, and the strengthened protocol
+
+`process_completed_block` (backend.c) keeps two kinds of locations: the one returned for a `LAST` call (inode
+`block start`) and the one returned for a fragment block (`sqfs_frag_table_set`).  A fragment block is written
+with neither `FIRST` nor `LAST`; what protects it from `deduplicate_blocks` is that it is written *between*
+files: `file_start` is moved past it by the next `FIRST` before any truncation can happen.  `claimsOf` lists,
+per call, the bytes the returned location has to hold for ever: a file's payload for a `LAST` call, the
+block's own bytes for a stored call made outside every file; nothing for a call inside a file (its location
+is not kept by anybody: the file may be given an older copy and its own blocks cut). -/
+
+def Call.fragBlk (c : Call) : Bool := hasFlag c.flags blkFragmentBlock
+
+/-- the call is made outside every file: no `FIRST` since the last `LAST`, and it carries neither -/
+def Call.outside (opened : Bool) (c : Call) : Bool := !(opened || c.first) && !c.last
+
+/-- per call: the bytes its location must keep holding (`opened`, `acc` as in `wf`, `files`) -/
+def claimsOf (opened : Bool) (acc : List Blk) : List Call → List (Option Bytes)
+  | [] => []
+  | c :: cs =>
+    let acc' := fileStep acc c
+    (if c.last then some (blkBytes acc')
+     else if c.outside opened && c.stored then some c.data else none)
+      :: claimsOf (if c.last then false else opened || c.first) acc' cs
+
+/-- **The oracle, every kept location.** -/
+def holdsAll (file : Bytes) : List (Option Bytes) → List Nat → Bool
+  | [], [] => true
+  | none :: ps, _ :: ls => holdsAll file ps ls
+  | some b :: ps, loc :: ls => (slice file loc b.length == b) && holdsAll file ps ls
+  | _, _ => false
+
+/-- The protocol the block processor really follows (proved for its model in `Sqfs.C08.stream_wfS`,
+`Model/C08Stream.lean`): `wf`, and a fragment block (`SQFS_BLK_FRAGMENT_BLOCK`) is never written between a
+`FIRST` and the matching `LAST`, and carries neither flag. -/
+def wfS (opened : Bool) : List Call → Bool
+  | [] => true
+  | c :: cs =>
+    (if c.fragBlk then !opened && !c.first && !c.last else true) &&
+    (if c.last then (opened || c.first) && wfS false cs
+     else wfS (opened || c.first) cs)
+
+/-- **The oracle for fragment blocks**: the location returned for every stored fragment block holds the block. -/
+def fragBlocksOk (file : Bytes) : List Call → List Nat → Bool
+  | [], [] => true
+  | c :: cs, loc :: ls =>
+    (if c.fragBlk && c.stored then slice file loc c.data.length == c.data else true) && fragBlocksOk file cs ls
+  | _, _ => false
+
+/-- the stored calls made outside every file, with the location returned -/
+def looseOf (opened : Bool) : List Call → List Nat → List (Nat × Call)
+  | c :: cs, loc :: ls =>
+    (if c.outside opened && c.stored then [(loc, c)] else []) ++
+      looseOf (if c.last then false else opened || c.first) cs ls
+  | _, _ => []
+
 /-- a location handed out for a non-empty file -/
 structure Rec where
   loc  : Nat
